@@ -10,6 +10,8 @@
 //     S      gc.stop()
 //     W      client-side barrier: wait (usleep polling) until every other client thread has finished
 //     Z<us>  usleep(us) (the thread really sleeps on the virtual clock; not in the model)
+//     P<us>  slow reclaimers: from now on every reclaimer call whose ordinal is 120 mod 128 sleeps <us> virtual us inside the call
+//     Q<n>   wait (usleep polling) until at least n reclaimer calls have been made (aims a thread into the middle of a batch)
 //     A<us>  let virtual time pass
 // stdout: <case-id> ok steps=.. pre=.. | <per-op results> calls=<thread.op@open-slots,...> | <monitor verdicts> ; details
 #include "shim/prelude.h"
@@ -38,6 +40,7 @@ struct World {
   std::vector<char> entered, closing;
   GarbageCollector<struct Reclaimer>* gc = nullptr;
   int nslots = 0;
+  unsigned slow_us = 0;
   std::string open_slots();
   bool region_open(int a, long s) { return seq[a] == s && depth[a] >= 1 && entered[a] && !closing[a]; }
 };
@@ -65,6 +68,7 @@ struct Reclaimer {
     for (auto& b : r.blockers) if (W->region_open(b.first, b.second)) r.early = true;
     W->call_order.push_back(id);
     W->call_open.push_back(W->open_slots());
+    if (W->slow_us && (W->call_order.size() - 1) % 128 == 120) usleep(W->slow_us);   // every call is a scheduling point; this one is long
   }
 };
 
@@ -193,6 +197,8 @@ int main(int, char**) {
               op.res = "W";
               break;
             case 'Z': usleep((useconds_t)op.arg); op.res = "Z"; break;
+            case 'P': w.slow_us = (unsigned)op.arg; verif::point(verif::K_USER, 0, nullptr, "slow", 0); op.res = "P"; break;
+            case 'Q': while ((long)w.call_order.size() < op.arg) usleep(50); op.res = "Q"; break;
             case 'A': verif::advance_time((uint64_t)op.arg * 1000); op.res = "A"; break;
             default: op.res = "?";
           }
